@@ -74,3 +74,6 @@ func (r *Rand) PickInt64(xs ...int64) int64 { return xs[r.Intn(len(xs))] }
 
 // Fork returns an independent generator derived from this one and a label.
 func (r *Rand) Fork(label string) *Rand { return NewRand(Mix(r.Uint64(), HashStr(label))) }
+
+// PickStr2F picks one of the float values.
+func (r *Rand) PickStr2F(xs ...float64) float64 { return xs[r.Intn(len(xs))] }
